@@ -292,12 +292,17 @@ def rates_parser(F, rep):
                     yr = True
                 else:
                     mo = True
-        if isinstance(c, tuple) and c and c[0] in ("bin", "cmp") and c[1] in ("Le", "Lt") and ("ZERO" in txt or txt.rstrip(")").endswith(" 0")):
+        if isinstance(c, tuple) and c and c[0] in ("bin", "cmp") and c[1] in ("Le", "Gt") and c[3] == ("const", "Decimal::ZERO"):
+            # `rate <= 0` must leave without pushing (or, equivalently, pushes sit on the true edge of `rate > 0`);
+            # `rate < 0` alone would let a zero rate through (division by zero later)
             true_t = sw["otherwise"]
-            arm = {x for x in b.reach_from(true_t) if b.dominates(true_t, x)}
-            dominates_push = all(b.dominates(s, p[0]) for p in pushes)
-            if dominates_push and all(p[0] not in arm for p in pushes):
-                pos = True
+            false_t = [x for v, x in sw["targets"] if v == "0"]
+            reject = true_t if c[1] == "Le" else (false_t[0] if false_t else None)
+            if reject is not None:
+                arm = {x for x in b.reach_from(reject) if b.dominates(reject, x)}
+                dominates_push = all(b.dominates(s, p[0]) for p in pushes)
+                if dominates_push and all(p[0] not in arm for p in pushes):
+                    pos = True
     rep.ob("R7", "period:year-checked", yr, "period year is compared with the expected year before any entry is pushed" if yr else
            "no dominating comparison of the file's year with the expected year", b.loc(), key="R7:period:year")
     rep.ob("R7", "period:month-checked", mo, "period month is compared with the expected month before any entry is pushed" if mo else
